@@ -202,6 +202,10 @@ def real_classes(ctx):
             with lc.quiet():
                 sim = ad.make_sim(mesh, ad.make_model(0))
             cases.append((f"{name}/{which}", sim))
+    # two pieces of different element types merged, the quadrangles inserted first (an order of the element groups the mesher never produces)
+    ad = lc.ADAPTERS["ElasticMerged"]()
+    with lc.quiet():
+        cases.append(("Elastic/merged-quad-first", ad.make_sim(ad.base_mesh("A"), ad.make_model(0))))
     # mixed TRI3 + QUAD4 mesh
     try:
         cases.append(("Elastic/mixed", _mixed_elastic()))
